@@ -133,7 +133,7 @@ def replay_wrapper(model, n=3, cols=LONG, cls="FlowProperties", frame=False, des
             if abs(float(obj.m_i) - float(f(m["pi"]))) > 1e-12 * abs(float(obj.m_i)):
                 problems.append(f"m_i = {float(obj.m_i)!r} but m_scaled_func(p_i) = {float(f(m['pi']))!r}")
             a = np.asarray(obj.pvt_props["alpha"], dtype=float)
-            if "alpha" not in cols:
+            if "alpha" not in cols or cls == "FlowPropertiesSimple":
                 want = 1 / (t["compressibility"] * t["viscosity"])
                 if np.any(np.abs(a - want) > 1e-12 * np.abs(want)):
                     problems.append(f"alpha column {a.tolist()} != 1/(c mu) {want.tolist()}")
@@ -144,7 +144,7 @@ def replay_wrapper(model, n=3, cols=LONG, cls="FlowProperties", frame=False, des
                 problems.append(f"alpha({m['q']!r}) raised {ex!r}")
             if not np.isfinite(v) or v < a.min() * (1 - 1e-12) or v > a.max() * (1 + 1e-12):
                 problems.append(f"alpha({m['q']!r}) = {v!r} outside the table's range [{a.min()!r}, {a.max()!r}]")
-            if "alpha" in cols:
+            if "alpha" in cols and cls != "FlowPropertiesSimple":
                 mi = float(obj.m_i)
                 node = any(abs(m["pi"] - m[f"p{k}"]) == 0 for k in range(n))
                 if node and abs(mi - 1) > 1e-9:
@@ -254,7 +254,8 @@ def job_wrapper(job, n, cols, cls, frame, descending=False):
         job.prove(f"{tag}/alpha(q) within the table's range for every real q[path{k}]", pr.pc + [T.b_or(below, above)],
                   bound=f"{n} rows, q unconstrained", replay=rp)
         job.prove(f"{tag}/alpha(q) positive[path{k}]", pr.pc + [T.b_le0(P(aq))], bound=f"{n} rows", replay=rp)
-        if "alpha" not in cols:
+        if "alpha" not in cols or cls == "FlowPropertiesSimple":
+            # the simple-liquid wrapper derives its diffusivity from c and mu whatever else the table carries
             cm = [T.b_not(T.b_eq0(T.p_sub(T.p_mul(P(a), P(c * mu)), T.ONE)))
                   for a, c, mu in zip(al, tab["compressibility"].d, tab["viscosity"].d)]
             job.prove(f"{tag}/alpha nodes == 1/(c mu)[path{k}]", pr.pc + [T.b_or(*cm)], bound=f"{n} rows", replay=rp)
@@ -424,6 +425,8 @@ def jobs(tier):
     out.append(("long-frame-3", lambda j: job_wrapper(j, 3, LONG, "FlowProperties", True)))
     out.append(("columns", job_columns))
     out.append(("rescale-frame", lambda j: job_rescale(j, 3, True)))
+    out.append(("simple-dict-3-with-alpha-column", lambda j: job_wrapper(j, 3, ("pressure", "compressibility", "viscosity", "alpha"), "FlowPropertiesSimple", False)))
+    out.append(("long-dict-3-with-alpha-column", lambda j: job_wrapper(j, 3, LONG + ("alpha",), "FlowProperties", False)))
     out.append(("long-dict-3-descending", lambda j: job_wrapper(j, 3, LONG, "FlowProperties", False, True)))
     out.append(("alpha-dict-3-descending", lambda j: job_wrapper(j, 3, SHORT, "FlowProperties", False, True)))
     out.append(("simple-dict-3-descending", lambda j: job_wrapper(j, 3, ("pressure", "compressibility", "viscosity"), "FlowPropertiesSimple", False, True)))
